@@ -152,6 +152,21 @@ class Harness:
         ip.isinstance_hook = isinstance_hook
         ip.call_value = lambda t, args, kwargs: uflmodel.restrict(t, args[0])
 
+    def init_from_source(self, *args, **kwargs):
+        """run the class's own __init__ (interpreted) on the object the rules are invoked with: whatever private state
+        the rules read is the state the constructor sets up, under whatever names"""
+        init = self.prog.lookup(self.cls, "__init__")
+        if init is None:
+            raise AnalysisError(f"{self.cls.name} has no __init__")
+        self.ip.call_function(init, list(args), dict(kwargs), self_obj=self.selfobj)
+        self.selfobj.attrs["__call__"] = self._self_call
+        return self
+
+    def init_gateaux(self, ws, vs, relations=()):
+        """GateauxDerivativeRuleset(ExprList(*ws), ExprList(*vs), ExprMapping(*relations))"""
+        box = lambda kind, xs: node(T.scalar(sym.ZERO), kind, tuple(xs))  # noqa: E731
+        return self.init_from_source(box("ExprList", ws), box("ExprList", vs), box("ExprMapping", [x for pair in relations for x in pair]))
+
     def _self_call(self, x):
         if isinstance(x, MI):
             return x
@@ -368,7 +383,7 @@ def gateaux_terminals(ctx, rep):
         v = terminal("v", wshape, "Argument")
         # dq/dw relation given by the user: shape q.shape + w.shape
         dq = terminal("dqdw", wshape, "Coefficient")
-        H.selfobj.attrs.update(_w=(w,), _v=(v,), _w2v={w: v}, _cd={q: dq})
+        H.init_gateaux([w], [v], [(q, dq)])
         h = H.handler("Coefficient")
         got = ip.call_function(h.func, [w], {}, self_obj=H.selfobj)
         cmp(rep, rule + "/w", h, f"d w/d w [v] with w of shape {wshape}", got, v, ctx)
@@ -393,7 +408,7 @@ def gateaux_terminals(ctx, rep):
     v = terminal("v", (2,), "Argument")
     q = terminal("q", (3,), "Coefficient")
     dq = terminal("dqdw", (3, 2), "Coefficient")
-    H.selfobj.attrs.update(_w=(w,), _v=(v,), _w2v={w: v}, _cd={q: dq})
+    H.init_gateaux([w], [v], [(q, dq)])
     h = H.handler("Coefficient")
     got = ip.call_function(h.func, [q], {}, self_obj=H.selfobj)
     data = {}
